@@ -25,20 +25,20 @@ def run(rep, tier):
     rep.distinct += nev
     # 2. statistics: >= 2^14 error coefficients per layout, computed by TLC from raw limbs and the clear secret
     def one(d):
-        label = "stat_%s_b%d_r%d" % (d["layout"], d["b"], d["rank"])
+        label = "stat_%s_b%d_r%d_be%d" % (d["layout"], d["b"], d["rank"], d.get("be", 9))
         return d, randpipe.run_group(rep, wd, label, [d])
-    with ThreadPoolExecutor(max_workers=6) as ex:
+    with ThreadPoolExecutor(max_workers=10) as ex:
         res = list(ex.map(one, stats))
     table = []
     for d, (ep, nev, bad, sums) in res:
-        table.append({"layout": d["layout"], "b": d["b"], "rank": d["rank"], "objects": nev, "error_coefficients": sums["n"], "sum": sums["s1"], "sum_sq": sums["s2"],
+        table.append({"layout": d["layout"], "backend": d.get("be"), "b": d["b"], "rank": d["rank"], "objects": nev, "error_coefficients": sums["n"], "sum": sums["s1"], "sum_sq": sums["s2"],
                       "max_abs": sums["mx"], "mask_digits": sums["nm"], "variance_x1000": (sums["s2"] * 1000) // max(1, sums["n"])})
         rep.evaluations += sums["n"]
         rep.distinct += nev
         if sums["n"] < 16384:
             raise ToolError("C06: only %d error coefficients for %s" % (sums["n"], d["layout"]))
         for k, kind in bad:
-            key = "stat:%s:%s b=%s rank=%s" % (kind, d["layout"], d["b"], d["rank"])
+            key = "stat:%s:%s b=%s rank=%s be=%s" % (kind, d["layout"], d["b"], d["rank"], d.get("be"))
             rep.violation(key, "statistic '%s' of fresh %s encryptions outside its acceptance band: %s" % (kind, d["layout"], json.dumps(table[-1])), {"descriptor": d, "sums": sums})
     rep.extra["statistics"] = table
     rep.extra["dependency_experiments"] = len(deps)
